@@ -49,14 +49,14 @@ def record(ctx, case, res, nontrivial, owns=None, extra_classes=()):
             ctx.count("attributed_elsewhere:" + ":".join(fp.split(":")[1:]))
 
 
-def run_random(shard, ctx, groups, nontrivial_fn, owns=None, max_steps=40, exact_kw=None, extra=None):
+def run_random(shard, ctx, groups, nontrivial_fn, owns=None, max_steps=40, exact_kw=None, extra=None, strategy=None):
     def body(hist):
         exprcheck.reset_caches()
         case = {"frontend": shard["frontend"], "reuse": shard.get("reuse", False), "approx": shard.get("approx", False), "history": hist}
         res = run_case(case)
         record(ctx, case, res, nontrivial_fn(res), owns, extra or ())
 
-    hyp.run(sm.histories(groups, max_steps=max_steps, exact_kw=exact_kw), shard["n"], shard["hseed"], body, ctx)
+    hyp.run(strategy if strategy is not None else sm.histories(groups, max_steps=max_steps, exact_kw=exact_kw), shard["n"], shard["hseed"], body, ctx)
 
 
 def shrink(case, obs, fp, matcher, deadline):
